@@ -212,7 +212,7 @@ class Gen:
             GV = [[0, -3, 0], [0, 0, -2], [2, -1, 1], [-1, 0, 3]]
             mobile = [i for i, d in enumerate(desc, 1) if NU[d["type"]] > 0]
             for _ in range(self.r.randint(1, 4)):
-                t = self.r.choice(["gravity", "gravity", "ugravity", "cforce", "ctorque", "mcf", "mls", "mld", "gdamper"])
+                t = self.r.choice(["gravity", "gravity", "ugravity", "cforce", "ctorque", "mcf", "mls", "mld", "gdamper", "tpls", "tpls", "tpld", "tpcf"])
                 e = {"type": t, "on": int(self.r.random() < 0.85)}
                 if t in ("gravity", "ugravity"):
                     e["g"] = self.r.choice(GV); e["ex"] = [int(self.r.random() < 0.2) for _ in desc]
@@ -220,6 +220,11 @@ class Gen:
                     e["b"] = self.r.randint(1, nb); e["st"] = vec(); e["f"] = vec()
                 elif t == "gdamper":
                     e["c"] = self.r.randint(1, 3)
+                elif t in ("tpls", "tpld", "tpcf"):      # interaction elements; either end may be Ground, or both ends the same body
+                    e["b"], e["b2"] = self.r.randint(0, nb), self.r.randint(0, nb)
+                    e["st"], e["st2"] = vec(), vec()
+                    e["c"] = self.r.randint(1, 4) if t != "tpcf" else self.r.choice([-3, -1, 2, 4])
+                    e["x0"] = self.r.randint(0, 2)
                 else:
                     if not mobile:
                         continue
@@ -385,7 +390,7 @@ def compare(cfg, want, got):
     """-> list of (property, what, detail)"""
     res = []
     if got.get("exc"):
-        return [(p, "exception", got["exc"]) for p in ("C05", "C03", "C04", "C01", "C15", "C02", "C14", "C10", "C06", "C07", "C08", "C38", "C12")]
+        return [(p, "exception", got["exc"]) for p in ("C05", "C03", "C04", "C01", "C15", "C02", "C14", "C10", "C06", "C07", "C08", "C38", "C12", "C13")]
     w = conv(want)
 
     def chk(prop, what, a, b):
@@ -454,6 +459,44 @@ def compare(cfg, want, got):
     if cfg["felems"] and "forces" in got:
         for tag, what in (("forces", "force-law"), ("forces2", "force-law-after-parameter-change")):
             kinds = "+".join(sorted(set(e["type"] for e in cfg["felems"])))
+            FE = cfg["felems"] if tag == "forces" else cfg["felems2"]
+            # interaction elements: finish the spec's exact ingredients with the square root, add them to the spec's totals
+            nb_ = len(cfg["desc"])
+            tpgot = {t["k"]: t for t in got[tag]["tp"]}
+            for k, e in enumerate(FE):
+                if e["type"] not in ("tpls", "tpld", "tpcf") or not e["on"] or ("done", tag, k) in w:
+                    continue
+                w[("done", tag, k)] = 1
+                tp = w[tag]["twopt"][k]
+                r = math.sqrt(sum(x * x for x in tp["p"]))
+                d = [x / r for x in tp["p"]]
+                f = e["c"] * (r - e["x0"]) if e["type"] == "tpls" else e["c"] * tp["pv"] / r if e["type"] == "tpld" else -e["c"]
+                F1 = [f * x for x in d]
+                F2 = [-x for x in F1]
+                cr = lambda a, b: [a[1] * b[2] - a[2] * b[1], a[2] * b[0] - a[0] * b[2], a[0] * b[1] - a[1] * b[0]]
+                exp = [[[0.0] * 3, [0.0] * 3] for _ in range(nb_ + 1)]
+                for b, rr, F in ((e["b"], tp["r1"], F1), (e["b2"], tp["r2"], F2)):
+                    t_ = cr(rr, F)
+                    exp[b][0] = [x + y for x, y in zip(exp[b][0], t_)]
+                    exp[b][1] = [x + y for x, y in zip(exp[b][1], F)]
+                g = tpgot.get(k)
+                if g is None:
+                    res.append(("C38", "interaction-element-missing", json.dumps(e)))
+                    continue
+                chk("C38", what + "/two-point-law/" + e["type"], exp, [[x["t"], x["f"]] for x in g["W"]])
+                chk("C13", "equal-and-opposite/" + e["type"], exp, [[x["t"], x["f"]] for x in g["W"]])
+                fs = max([1.0] + [abs(x) for x in F1])
+                small("C13", "total-force-of-an-interaction-is-zero/" + e["type"], max(abs(x) for x in g["ftot"]), fs * 10)
+                small("C13", "total-moment-of-an-interaction-is-zero/" + e["type"], max(abs(x) for x in g["mtot"]), fs * 100)
+                small("C13", "interaction-applies-no-mobility-force/" + e["type"], g["mobnorm"], fs)
+                pe = 0.5 * e["c"] * (r - e["x0"]) ** 2 if e["type"] == "tpls" else 0.0
+                chk("C38", what + "/two-point-potential-energy/" + e["type"], pe, g["pe"])
+                # add to the totals the spec left them out of
+                for b in range(1, nb_ + 1):
+                    w[tag]["body"][b - 1]["t"] = [x + y for x, y in zip(w[tag]["body"][b - 1]["t"], exp[b][0])]
+                    w[tag]["body"][b - 1]["f"] = [x + y for x, y in zip(w[tag]["body"][b - 1]["f"], exp[b][1])]
+                w[tag]["pe2"] += 2 * pe
+                w[tag]["power"][k] = sum(a * b for a, b in zip(F1, tp["v1"])) + sum(a * b for a, b in zip(F2, tp["v2"]))
             chk("C38", what + "/body-forces/" + kinds, [[b["t"], b["f"]] for b in w[tag]["body"]], [[b["t"], b["f"]] for b in got[tag]["body"]])
             chk("C38", what + "/mobility-forces/" + kinds, w[tag]["mob"], got[tag]["mob"])
             chk("C38", what + "/potential-energy/" + kinds, w[tag]["pe2"], got[tag]["pe2"])
@@ -574,6 +617,11 @@ def run(pid, tier, rep, replay=None):
     singular = [i for i in sorted(want) if len(want[i]["M"]) and not is_spd(conv(want[i]["M"]), 1e-9)]
     for i in singular:
         del want[i]
+    for i in want:      # interaction elements between coincident points have no direction: switch them off (both parameter sets)
+        for k, e in enumerate(cfgs[i]["felems"]):
+            if e["type"] in ("tpls", "tpld", "tpcf") and sum(frac(x) ** 2 for x in want[i]["forces"]["twopt"][k]["p"]) < 1e-12:
+                e["on"] = 0
+                cfgs[i]["felems2"][k]["on"] = 0
     for i in want:      # a rod of zero current length has no defined direction: switch it off
         for k, cc in enumerate(cfgs[i]["cons"]):
             if cc["type"] == "rod" and frac(want[i]["cons"][k]["perr"]) < 1e-12:
